@@ -3,9 +3,16 @@ from vlib import Harness, NCPU
 
 def plan(tier):
     h = Harness("c11_sync", ["harness/c11_sync.cpp"], flavor="asan", shim=True, extra_flags=["-fno-access-control"])
+    # thorough: most semaphore executions end in a legal quiescent state with blocked waiters, which ends the worker
+    # process; a new ASan process costs ~7 ms of system time, a plain one ~1.5 ms.  The quick scenario set runs under
+    # ASan in both tiers; the larger thorough set runs in a plain -O2 build (asserts on, same oracles).
+    hp = Harness("c11_sync_plain", ["harness/c11_sync.cpp"], flavor="plain", shim=True, extra_flags=["-fno-access-control"])
+    runs = [(h, ["--tier", "quick", "--deadline", "240"], NCPU)]
+    if tier == "thorough":
+        runs.append((hp, ["--tier", "thorough", "--deadline", "1500"], NCPU))
     return {
-        "harnesses": [h],
-        "runs": [(h, ["--tier", tier, "--deadline", "240" if tier == "quick" else "1500"], NCPU)],
+        "harnesses": [h, hp] if tier == "thorough" else [h],
+        "runs": runs,
         "states_key": "schedules_at_top_bound", "transitions_key": "transitions", "traces_key": "executions",
         "distinct_key": "schedules_at_top_bound",
         "rule": "every tuple of per-thread Semaphore call scripts (2-4 threads, 1-2 calls each, bounded total, initial value 0/1) and every "
